@@ -71,12 +71,14 @@ def register_in_group(
         pg_ref = pgroup.PluginRef(name=pginfo.name, version=pginfo.version)
 
         is_new = ep_name not in pgroup._ENTRY_POINTS
+        prev_plugin = pgroup._LOADED_PLUGINS.get(pg_ref)
         pgroup._ENTRY_POINTS[ep_name] = None
         pgroup._LOADED_PLUGINS[pg_ref] = plugin
         if pg_ref.name not in pgroup._VERSIONS:
             pgroup._VERSIONS[pg_ref.name] = []
-        pgroup._VERSIONS[pg_ref.name].append(pg_ref)
-        pgroup._VERSIONS[pg_ref.name].sort()
+        if pg_ref not in pgroup._VERSIONS[pg_ref.name]:  # (could be registered again)
+            pgroup._VERSIONS[pg_ref.name].append(pg_ref)
+            pgroup._VERSIONS[pg_ref.name].sort()
 
         try:
             pgroup._load_plugin(ep_name, plugin)
@@ -87,6 +89,8 @@ def register_in_group(
                 pgroup._VERSIONS[pg_ref.name].remove(pg_ref)
                 if not pgroup._VERSIONS[pg_ref.name]:
                     del pgroup._VERSIONS[pg_ref.name]
+            elif prev_plugin is not None:  # keep what was registered before
+                pgroup._LOADED_PLUGINS[pg_ref] = prev_plugin
             raise
         if not violently:
             eprint(
